@@ -116,16 +116,36 @@ fn fmt_lines(set: BTreeSet<i32>) -> String {
     set.iter().map(|x| x.to_string()).collect::<Vec<_>>().join(" ")
 }
 
+// A small file with findings for many detectors, padded with line feeds to the length of the file under
+// analysis: it is analysed immediately BEFORE that file, under the same file number and in the same buffer
+// (same address, same length), the way analyze_dir meets two equally long files at the same listing index of two
+// directories.  A verdict must not depend on what was analysed before (C15); a cache keyed by file number,
+// length or address shows up as a wrong line set for the file that follows.
+const DECOY: &str = "pragma solidity ^0.7.1;\ncontract Decoy { uint public _v; address o;\n function k(uint[] memory m) external { require(_v > 0 && m.length >= 1, \"this message is longer than thirty-two bytes!\"); _v = _v / 2 * 4; _v++; selfdestruct(payable(o)); }\n function t(address a) public { IERC20(a).transfer(a, address(this).balance); }\n}\n";
+
+fn analyze_one(idx: usize, name: &str, src: &str) -> BTreeSet<i32> {
+    if idx < N_OPT {
+        opt::analyze_for_optimization(src, 0, opt::str_to_optimization(name))
+    } else if idx < N_OPT + N_VUL {
+        vul::analyze_for_vulnerability(src, 0, vul::str_to_vulnerability(name))
+    } else {
+        qa::analyze_for_qa(src, 0, qa::str_to_qa(name))
+    }
+}
+
 fn lines_for(idx: usize, name: &str, src: &str) -> Result<BTreeSet<i32>, ()> {
-    let r = catch_unwind(AssertUnwindSafe(|| {
-        if idx < N_OPT {
-            opt::analyze_for_optimization(src, 0, opt::str_to_optimization(name))
-        } else if idx < N_OPT + N_VUL {
-            vul::analyze_for_vulnerability(src, 0, vul::str_to_vulnerability(name))
-        } else {
-            qa::analyze_for_qa(src, 0, qa::str_to_qa(name))
+    let n = src.len();
+    let mut buf = String::with_capacity(n.max(1));
+    if n >= DECOY.len() {
+        buf.push_str(DECOY);
+        while buf.len() < n {
+            buf.push('\n');
         }
-    }));
+        let _ = catch_unwind(AssertUnwindSafe(|| analyze_one(idx, name, &buf)));
+    }
+    buf.clear();
+    buf.push_str(src); // same allocation: capacity is unchanged
+    let r = catch_unwind(AssertUnwindSafe(|| analyze_one(idx, name, &buf)));
     r.map_err(|_| ())
 }
 
@@ -286,8 +306,18 @@ fn main() {
     let args: Vec<String> = std::env::args().collect();
     match args.get(1).map(|s| s.as_str()) {
         Some("prog") => {
-            let flags: Vec<&str> = args[3..].iter().map(|s| s.as_str()).collect();
-            cmd_prog(&args[2], flags.contains(&"walk"), !flags.contains(&"nodump"))
+            // the library is called on a thread with a large stack (as the solstat binary does), so that deeply
+            // nested but parseable files are analysed instead of overflowing the 8 MiB main-thread stack
+            let args2 = args.clone();
+            std::thread::Builder::new()
+                .stack_size(2usize << 30)
+                .spawn(move || {
+                    let flags: Vec<&str> = args2[3..].iter().map(|s| s.as_str()).collect();
+                    cmd_prog(&args2[2], flags.contains(&"walk"), !flags.contains(&"nodump"))
+                })
+                .expect("spawn")
+                .join()
+                .expect("join");
         }
         Some("util") => cmd_util(),
         _ => {
